@@ -193,16 +193,18 @@ func (g mapGenerator) EmitNodeMethodLookupByString(w io.Writer) {
 }
 
 func (g mapGenerator) EmitNodeMethodLookupByNode(w io.Writer) {
-	// LookupByNode will proceed by cast if it can; or simply error if that doesn't work.
-	//  There's no attempt to turn the node (or its repr) into a string and then reify that into a key;
-	//   if you used a Node here, you should've meant it.
+	// LookupByNode will proceed by cast if it can; a node of another implementation is looked up by its string.
 	// REVIEW: by comparison structs will coerce anything stringish silently...!  so we should figure out if that inconsistency is acceptable, and at least document it if so.
 	doTemplate(`
 		func (n {{ .Type | TypeSymbol }}) LookupByNode(k datamodel.Node) (datamodel.Node, error) {
 			k2, ok := k.({{ .Type.KeyType | TypeSymbol }})
 			if !ok {
-				panic("todo invalid key type error")
-				// 'schema.ErrInvalidKey{TypeName:"{{ .PkgName }}.{{ .Type.Name }}", Key:&_String{k}}' doesn't quite cut it: need room to explain the type, and it's not guaranteed k can be turned into a string at all
+				// A key node of another implementation: go by its string, as a path segment would.
+				ks, err := k.AsString()
+				if err != nil {
+					return nil, err
+				}
+				return n.LookupByString(ks)
 			}
 			v, exists := n.m[*k2]
 			if !exists {
